@@ -1,3 +1,5 @@
 import DDProps.Tables
 import DDProps.C02
 import DDProps.C01
+import DDProps.C10
+import DDProps.C18
